@@ -6,6 +6,7 @@ mod hashseed;
 mod c13;
 mod c15;
 mod c16;
+mod c17;
 mod ide_sim;
 mod lsp;
 mod lspcheck;
@@ -224,6 +225,7 @@ fn lsp_gen(prop: &str, seed: u64, run: u64, thorough: bool) -> lsp::Session {
         "C13" => c13::gen_session(seed, run, thorough),
         "C15" => c15::gen_session(seed, run, thorough),
         "C16" => c16::gen_session(seed, run, thorough),
+        "C17" => c17::gen_session(seed, run, thorough),
         _ => panic!("unknown lsp property {prop}"),
     }
 }
@@ -270,6 +272,20 @@ fn lsp_eval(s: &lsp::Session, h: &lsp::History) -> LspEval {
                 counters.insert(k.to_string(), v);
             }
             LspEval { violation, nontrivial: st.nontrivial, kind_key: String::new(), counters }
+        }
+        "C17" => {
+            let mut st = c17::Stats::default();
+            let violation = c17::check(s, h, &mut st);
+            for (k, v) in [
+                ("imports_checked", st.imports_checked),
+                ("resolved_to_target", st.resolved_to_target),
+                ("resolved_to_nothing_as_expected", st.resolved_to_nothing_as_expected),
+                ("late_unresolved_accepted", st.late_unresolved_accepted),
+                ("rename_refusals_checked", st.rename_refusals_checked),
+            ] {
+                counters.insert(k.to_string(), v);
+            }
+            LspEval { violation, nontrivial: st.nontrivial, kind_key: st.kind_key, counters }
         }
         p => panic!("unknown lsp property {p}"),
     }
@@ -514,7 +530,7 @@ fn lsp_shrink(args: &[String]) -> i32 {
                         c.op = lsp::Op::Change { uri: uri.clone(), edits: e2 };
                         cands.push(c);
                     }
-                    lsp::Op::Open { uri, text } if text.chars().count() > 1 => {
+                    lsp::Op::Open { uri, text } if text.chars().count() > 1 && best.property != "C17" => {
                         for keep in [text.chars().count() / 2, text.chars().count() - 1] {
                             let t: String = text.chars().take(keep).collect();
                             let mut c = p.clone();
@@ -654,6 +670,13 @@ fn ide_shrink(args: &[String]) -> i32 {
 
 fn main() {
     install_quiet_panic_hook();
+    if std::env::var("VERIF_TRACE").is_ok() {
+        // debugging aid: the server's own tracing output on stderr
+        let _ = tracing_subscriber::fmt()
+            .with_env_filter(tracing_subscriber::EnvFilter::new(std::env::var("VERIF_TRACE").unwrap()))
+            .with_writer(std::io::stderr)
+            .try_init();
+    }
     let args: Vec<String> = std::env::args().skip(1).collect();
     let code = match args.first().map(|s| s.as_str()) {
         Some("ide-worker") => ide_worker(&args[1..]),
